@@ -13,12 +13,12 @@ chk("C01", "exploration",
     "runtime monitoring: differential oracle over produced bytes and reader event sequences (reference codec)", "DESIGN.md §6 C01")
 
 chk("C02", "exploration",
-    "Runtime monitor over mutated archives: EVERY proper prefix and every byte (one bit quick / all 8 bits thorough) of seeded small valid CARv1/CARv2 archives, plus random mutations, through 20 scanning readers (v2 BlockReader on seekable/plain/1-byte/bufio/data+EOF/stutter/seekable-data+EOF sources with and without ZeroLengthSectionAsEOF, carv1 reader, root CarReader/LoadCar, Inspect(true)); archives with one large section are sampled at offsets; oracles: every returned block re-hashed with stdlib hashes, reference section table decides whether a cut/flip must be reported, returned blocks must be a prefix of the original sequence. Enumeration is total per archive, archives are sampled.",
+    "Runtime monitor over mutated archives: EVERY proper prefix and every byte (one bit quick / all 8 bits thorough) of seeded small valid CARv1/CARv2 archives, plus random mutations, through 20 scanning readers (v2 BlockReader on seekable/plain/1-byte/bufio/data+EOF/stutter/seekable-data+EOF sources with and without ZeroLengthSectionAsEOF, carv1 reader, root CarReader/LoadCar, Inspect(true)); archives with one large section are sampled at offsets; oracles: every returned block re-hashed with stdlib hashes, reference section table decides whether a cut/flip must be reported, returned blocks must be a prefix of the original sequence. A further family makes the SOURCE fail with a non-EOF error at every payload offset (readers that return or validate block bytes must not end cleanly), and a returned block whose hash function has no implementation anywhere counts as unverified. Enumeration is total per archive, archives are sampled.",
     "trusts refcar's section table and stdlib/x-crypto hashes; cuts on section boundaries and past a CARv2 payload are exempt as the property states; zero-length (fully truncated) digests verify vacuously as multihash defines",
     "runtime monitoring: exhaustive truncation/bit-flip fault injection per archive with hash and clean-end oracles", "DESIGN.md §6 C02")
 
 chk("C03", "exploration",
-    "Runtime monitor: seeded payloads (duplicates, equal digest under two hash codes, identity, CIDv0, digest widths 0..80) in 5 container forms are indexed by GenerateIndex (both codecs) and LoadIndex(InsertionIndex) from 5 source kinds (seekable, *os.File, plain reader, 1-byte reader, Reader.DataReader) plus the file-path and read-or-generate front-ends; every GetAll/GetFirst/ForEach answer is compared with the key→offsets multiset of an independent scan, for every present CID and absent neighbours; option effects (StoreIdentityCIDs, ZeroLengthSectionAsEOF, MaxIndexCidSize) are predicted by the reference.",
+    "Runtime monitor: seeded payloads (duplicates, equal digest under two hash codes, identity, CIDv0, digest widths 0..80) in 5 container forms are indexed by GenerateIndex (both codecs) and LoadIndex(InsertionIndex) from 5 source kinds (seekable, *os.File, plain reader, 1-byte reader, Reader.DataReader) plus the file-path and read-or-generate front-ends; every GetAll/GetFirst/ForEach answer is compared with the key→offsets multiset of an independent scan, for every present CID and absent neighbours; option effects (StoreIdentityCIDs, ZeroLengthSectionAsEOF, MaxIndexCidSize) are predicted by the reference; payloads with 16k-53k sections; index generation over a source that fails mid-payload must return an error.",
     "trusts refcar's scan; for the in-memory insertion index both digest-keyed and multihash-keyed answers are accepted",
     "runtime monitoring: differential oracle (reference scan) over index query results", "DESIGN.md §6 C03")
 chk("C14", "exploration",
@@ -40,17 +40,17 @@ chk("C13", "exploration",
     "runtime monitoring: reference-model oracle on returned Stats and accept/reject verdicts", "DESIGN.md §6 C13")
 
 chk("C07", "exploration",
-    "Runtime monitor: seeded archives (duplicates, same multihash under other codecs, same key with different bytes, identity twins) in 5 container forms x {UseWholeCIDs, StoreIdentityCIDs} x {embedded/generated index, caller-supplied index built by the library or by the reference in either codec}; every present CID and 4-5 absent neighbours are queried through blockstore.NewReadOnly, OpenReadOnly and storage.OpenReadable; Has/Get/GetSize/GetStream/Roots answers are compared with a reference front-to-back scan, AllKeysChan with the scan's CID sequence in order, and the two front-ends with each other.",
+    "Runtime monitor: seeded archives (duplicates, same multihash under other codecs, same key with different bytes, identity twins) in 5 container forms x {UseWholeCIDs, StoreIdentityCIDs} x {embedded/generated index, caller-supplied index built by the library or by the reference in either codec}; every present CID and 4-5 absent neighbours are queried through blockstore.NewReadOnly, OpenReadOnly and storage.OpenReadable; Has/Get/GetSize/GetStream/Roots answers are compared with a reference front-to-back scan, AllKeysChan with the scan's CID sequence in order, and the two front-ends with each other; archives written fully indexed but read without the option, identity CIDs longer than MaxIndexCidSize, an io.ReaderAt that reports EOF with the last full read, and a backing on which one section is unreadable (lookups of its key must fail with an error, neither 'absent' nor bytes).",
     "trusts refcar's scan; for an absent identity CID under StoreIdentityCIDs a size answer and a not-found answer of GetSize are both accepted",
     "runtime monitoring: reference-scan oracle over public read API results, cross-API agreement", "DESIGN.md §6 C07")
 
 chk("C15", "exploration",
-    "Runtime monitor: seeded DAGs (dag-cbor/dag-json/dag-pb/raw, repeated links, shared subtrees, identity links, depth 1-6) x selectors (explore-all, depth-limited, field paths) x options (AllowDuplicatePuts, link budget, paddings, index codec / none, TraverseLinksOnlyOnce) through six writer paths (v2 NewSelectiveWriter.WriteTo, TraverseV1, TraverseToFile; root SelectiveCar.Write, Prepare+Dump, WriteCar); a recording link system / store logs every load at the API boundary; output decoded by the reference must equal the distinct loads in first-visit order, announced sizes (DataSize, Prepare().Size(), returned counts) must equal bytes written, Dump == Write, every block callback's [Offset, Offset+Size) must be that section, CARv2 container fields and index are checked against the reference.",
+    "Runtime monitor: seeded DAGs (dag-cbor/dag-json/dag-pb/raw, repeated links, shared subtrees, identity links, depth 1-6) x selectors (explore-all, depth-limited, field paths) x options (AllowDuplicatePuts, link budget, paddings, index codec / none, TraverseLinksOnlyOnce) through six writer paths (v2 NewSelectiveWriter.WriteTo, TraverseV1, TraverseToFile; root SelectiveCar.Write, Prepare+Dump, WriteCar); a recording link system / store logs every load at the API boundary; output decoded by the reference must equal the distinct loads in first-visit order, announced sizes (DataSize, Prepare().Size(), returned counts — also the count returned by a traversal that fails midway) must equal bytes written, Dump == Write, every block callback's [Offset, Offset+Size) must be that section, CARv2 container fields and index are checked against the reference.",
     "trusts refcar; callbacks' Offset/Size semantics (section start, whole section) taken from the code since the API does not document them; merkledag.WalkOptions such as SkipRoot are outside the property's quantifier and not generated",
     "runtime monitoring: recorded load log at the link-system boundary vs reference-decoded output bytes and announced sizes", "DESIGN.md §6 C15")
 
 chk("C04", "exploration",
-    "Runtime monitor against an executable reference model: EVERY history of length ≤ 3 (quick) / ≤ 4 (thorough) over {Put of 9 designed blocks, 2 PutMany batches, Finalize, FinalizeReadOnly, Close, Discard} x 10/14 option configurations x {blockstore.ReadWrite, storage.StorageCar on a memfile, storage.StorageCar on a caller-owned *os.File}, plus random histories of length 10-60; after every step all lookups (Has/Get/GetSize of 9 keys, AllKeysChan, Roots) and the payload bytes on file are compared with the model; after a terminal operation all operations are re-run (errors required, file frozen). Exhaustive within the stated bound only.",
+    "Runtime monitor against an executable reference model: EVERY history of length ≤ 3 (quick) / ≤ 4 (thorough) over {Put of 9 designed blocks, 2 PutMany batches, Finalize, FinalizeReadOnly, Close, Discard} x 10/14 option configurations x {blockstore.ReadWrite, blockstore.OpenReadWriteFile on a caller-owned *os.File, storage.StorageCar on a memfile, storage.StorageCar on a bare ReaderAt/WriterAt that cannot be truncated}, plus random histories of length 10-60; after every step all lookups (Has/Get/GetSize of 9 keys, AllKeysChan, Roots) and the payload bytes on file are compared with the model; after a terminal operation all operations are re-run (errors required, file frozen). Exhaustive within the stated bound only.",
     "trusts the model (harness/internal/lab/model.go: documented admission rules) and refcar; answers are compared against admissible sets so that the model never demands more than the statement",
     "runtime monitoring: step-by-step comparison of public API results and file bytes with an executable map model over exhaustively enumerated short histories", "DESIGN.md §6 C04")
 chk("C19", "exploration",
@@ -72,7 +72,7 @@ chk("C20", "exploration",
     "runtime monitoring: step-by-step comparison with an executable model and a twin direct writer over exhaustively enumerated op strings", "DESIGN.md §6 C20")
 
 chk("C16", "fault_enumeration",
-    "Runtime fault injection: the fault-free run of each seeded session (open, 1-5 puts, finalize) yields its list of write calls; EVERY write call is then failed once with accepted byte counts {0, mid, len-1} (quick) or every count (thorough third), with and without retrying the failed block, plus fault pairs (thorough), on 5 targets: StorageCar over a WriterAt memfile, over a plain io.Writer, deferred stream writer, blockstore.ReadWrite with Put and with PutMany (faults injected through the verif write hook, whose trace is checked for completeness against the file), plus a hook-independent cross-check in which the KERNEL makes the fault: an untapped child lowers RLIMIT_FSIZE to 'file size + k' around one Put (EFBIG / short write as on a full disk). Monitors: the API call during which the writer failed returns an error; Has(failed block) is false unless stored earlier; if all later calls succeed the finalized archive decodes strictly, holds exactly the acknowledged blocks, a matching index and a consistent header.",
+    "Runtime fault injection: the fault-free run of each seeded session (open, 1-5 puts, finalize) yields its list of write calls; EVERY write call is then failed once with accepted byte counts {0, mid, len-1} (quick) or every count (thorough third), with and without retrying the failed block, plus fault pairs (thorough), on 6 targets: StorageCar over a WriterAt memfile, over a plain io.Writer, deferred stream writer, deferred writer on a path, blockstore.ReadWrite with Put and with PutMany (on real files the faults are injected through the verif write hook, attached by *os.File or by file name, whose trace is checked for completeness against the file), plus a hook-independent cross-check in which the KERNEL makes the fault: an untapped child lowers RLIMIT_FSIZE to 'file size + k' around one Put (EFBIG / short write as on a full disk). Monitors: the API call during which the writer failed returns an error; Has(failed block) is false unless stored earlier; if all later calls succeed the finalized archive decodes strictly, holds exactly the acknowledged blocks, a matching index and a consistent header.",
     "fault model = transient error with k < len bytes accepted on one write call; trusts refcar, lab.Model, the memfile and (up to the completeness check) the verif hook",
     "runtime monitoring: enumerated write-fault injection with acked-set bookkeeping and reference decode of the final bytes", "DESIGN.md §6 C16")
 
@@ -85,7 +85,7 @@ chk("C17", "exploration",
     "absolute names/targets only point inside the sandbox; a wall-clock watchdog on a child is inconclusive",
     "runtime monitoring: filesystem snapshot-equality oracle around black-box executions on adversarial inputs", "DESIGN.md §6 C17")
 chk("C18", "exploration",
-    "Runtime monitor on the built car binary: seeded file trees in 10 profiles (empty files, chunk boundaries, deep nesting, many siblings, odd/unicode names, symlinks incl. dangling/absolute/chains, empty dirs, duplicates, sharded directory; a >174-chunk file in thorough) x 6 create forms (wrap v1/v2, no-wrap v1/v2, several sources, '.') then extraction with -f, stdin pipe and stdin redirect; oracle = tree equality (names, contents, link targets), exactly one header root (reference-decoded) equal to `car root` output and present as a block, source tree untouched.",
+    "Runtime monitor on the built car binary: seeded file trees in 12 profiles (names up to 255 bytes, empty files, chunk boundaries, deep nesting, many siblings, odd/unicode names, symlinks incl. dangling/absolute/chains, empty dirs, duplicates, sharded directory; a >174-chunk file in thorough) x 6 create forms (wrap v1/v2, no-wrap v1/v2, several sources, '.') then extraction with -f, stdin pipe, stdin redirect and -f into an output directory named through a symlinked ancestor; oracle = tree equality (names, contents, link targets), exactly one header root (reference-decoded) equal to `car root` output and present as a block, source tree untouched.",
     "modes/mtimes are not part of the property; refcar decodes the header",
     "runtime monitoring: round-trip tree-equality oracle over black-box executions", "DESIGN.md §6 C18")
 
@@ -95,7 +95,7 @@ chk("C08", "exploration",
     "runtime monitoring: Go race detector + recorded-history linearizability checking (porcupine) + final-state conservation check", "DESIGN.md §6 C08")
 
 chk("C09", "exploration",
-    "Runtime totality/resource monitor in child processes: ~6k inputs (exhaustive typed mutations incl. CBOR header length claims of reference-built v1/v2/index files: length varints ±1/x2/2^31..2^64-1, v2 header field extremes and overflows, index count/width/len extremes, zero-length sections, CID digest-length claims; the repository's fixtures and fuzz corpus; random mutations) x 50 entry points (block reader Next/SkipNext/mixed on 4 source kinds, Reader Roots/DataReader/IndexReader/Inspect, ReadVersion, GenerateIndex/LoadIndex into 3 index kinds from seekable and plain sources, ReadOrGenerateIndex, index.ReadFrom + queries, read-only blockstore and readable storage + queries, WrapV1, ExtractV1File, ReplaceRootsInFile, root CarReader and LoadCar) under small and default limits; each batch runs in a child under ulimit -v 4 GiB / ulimit -t with a start/done log so that a process-fatal error is attributed to its input; monitors: no panic / runtime fatal / CPU-limit kill, read-call budget and iteration cap (bounded progress), TotalAlloc delta ≤ header limit + section limit + 64·len + 256 KiB, canary calls at both ends of every batch, and a limit table (exactly-at-maximum accepted, maximum+1 rejected with the too-large error, giant length prefixes rejected with < 64 KiB allocated).",
+    "Runtime totality/resource monitor in child processes: ~6k inputs (exhaustive typed mutations incl. CBOR header length claims of reference-built v1/v2/index files: length varints ±1/x2/2^31..2^64-1, v2 header field extremes and overflows, index count/width/len extremes, zero-length sections, CID digest-length claims; the repository's fixtures and fuzz corpus; random mutations) x 50 entry points (block reader Next/SkipNext/mixed on 4 source kinds, Reader Roots/DataReader/IndexReader/Inspect, ReadVersion, GenerateIndex/LoadIndex into 3 index kinds from seekable and plain sources, ReadOrGenerateIndex, index.ReadFrom + queries, read-only blockstore and readable storage + queries, WrapV1, ExtractV1File, ReplaceRootsInFile, root CarReader and LoadCar) under small and default limits; each batch runs in a child under ulimit -v 4 GiB / ulimit -t with a start/done log so that a process-fatal error is attributed to its input; monitors: no panic / runtime fatal / CPU-limit kill, read-call budget and iteration cap (bounded progress), TotalAlloc delta ≤ header limit + section limit + 64·len + 256 KiB, a blocked-goroutine monitor (every goroutine with go-car or harness frames parked on a channel or mutex, unchanged for 10 s → the call does not terminate), canary calls at both ends of every batch, and a limit table (exactly-at-maximum accepted, maximum+1 rejected with the too-large error, giant length prefixes rejected with < 64 KiB allocated).",
     "'never fails to terminate' is decided as bounded progress (logical read budget, iteration cap, CPU-seconds fence; a wall-clock timeout is inconclusive); allocation measured by runtime.MemStats.TotalAlloc around each sequential call; finding keys name the innermost go-car frame of the dominant allocation / panic",
     "runtime monitoring: child-process execution with resource fences, allocation counters and exit-status/panic classification over structure-aware hostile inputs", "DESIGN.md §6 C09")
 
